@@ -73,9 +73,21 @@ one-level summaries computed to a fixpoint over all units) plus Engine I (sa/int
   R13.23 assembler accepts    the immediates of the bit-field templates fit a sign-extended 32-bit operand for every width/offset the layout admits (C04 R04.1/R04.2 re-issued):
                                assembly that the assembler rejects is not output.
 
+  R13.24 diagnostic's file     a token made from a template token after tokenizing (converted string literal, tokens of builtin macros, # and ##) carries the template's file
+                               identity and line, not the stamp of the file tokenized last: error_tok() prints tok->file->name (C18 R18.5 re-issued).
+  R13.25 function entry        the entry function of the code generator (parameter offsets, saving register-passed parameters: store_gp/store_fp with MIN(8,size) / size-8,
+                               assert(size <= 16)) interpreted (Engine I) on a one-definition program per witness parameter type (scalars, aggregates of every eightbyte
+                               classification, aggregates without members, an aggregate in memory) x register pressure: no unreachable(), no failing assert.
+  R13.26 NULL into non-null    R13.1 takes every pointer field outside the nullable table for non-null; a value read from a field of the table (without `implied` kinds) is not
+                               stored into such a field, directly or through a parameter that a function stores there unconditionally (derived, transitive), unless a null test or
+                               a callee that assigns the field on every return (derived from return states, recursive functions included) dominates.  Type.vla_size is in the table.
+  R13.16 (extended)            offsetof as include/stddef.h defines it (read from the header; member, nested member, array element) is evaluated by the integer evaluators and
+                               recognised by is_const_expr.
+  R13.12 (refined)             a helper of the evaluators that leaves the kind dispatch to its callers is judged under the kinds its callers hand it (eval_flonum_binary).
+  R13.7 (refined)              a wait whose result is kept (`ret = waitpid(pid, &status, 0)`) succeeded with the awaited pid when it delivered a status.
+
 Not implemented (stated, not claimed): error_at's pointer lies inside current_file->contents (R13.6, second clause);
-store_fp/store_gp call sites whose argument is MIN(8,size) / size-8 (R13.3, listed as not judged in the evidence);
-assert(ty->size <= 16) in emit_text and the two asserts of hashmap.c:rehash (R13.4, listed).
+the two asserts of hashmap.c:rehash (R13.4, listed).
 """
 from ..build import AnalysisBroken
 from .. import lib_c13 as L
@@ -269,6 +281,10 @@ def run(P, rep, tier):
                        'establish: a tightest limit of `<= count` is an index one past the allocation (R13.21). The recursion diagnostic printer -> column computation -> UTF-8 decoder -> diagnostic is '
                        'proved to make progress: reported position not after the cursor (interpreted on every path), decoder applied strictly inside the window, window ends at the reported position (R13.22). '
                        'The bit-field templates\' immediates are encodable (obligations of C04 re-issued, R13.23). '
+                       'Tokens made after tokenizing keep the file identity of their template (obligations of C18 R18.5 re-issued, R13.24). The entry function of the code generator is '
+                       'interpreted on one-definition programs per witness parameter type and register pressure: no internal error, no failing assertion (R13.25). Values of nullable-table '
+                       'fields (Type.vla_size among them) are not stored where every reader assumes a pointer, directly or through constructor parameters (derived), unless a null test or a '
+                       'callee that assigns the field on every return dominates (R13.26). '
                        'Not decided: termination in general (loops, indirect recursion other than through the diagnostic printer), acceptance of all byte strings, recursion depth.')
     rep.assumptions += ['calloc/malloc/open_memstream succeed', 'every Node that reaches the code generator was typed by add_type and is not modified afterwards (typing relation injected into codegen.c)',
                         'a forced merge of analysis states (more than %d disjuncts, loop widening) makes disagreeing facts unknown, never may-be-NULL' % L.CAP, 'a callee does not reset an object field the caller has just tested (no alias kills); globals are killed only by direct writers',
@@ -292,6 +308,10 @@ def run(P, rep, tier):
                         'R13.20: a function in W.pure has no effect; a local all of whose definitions are call results is no part of the parameter',
                         'R13.21: an array field has the element count of its allocation site for as long as the owner exists (owner and array are replaced together); where the index is compared with the '
                         'same count field of another type object than the owner\'s (a `ty` parameter next to the initializer), that object is assumed to describe the same array; an index with no known relation to a count is listed, not judged',
+                        'R13.25: the witness catalogue stands for all parameter types (the prologue depends on kind, size, alignment and the floating/integer classification of each eightbyte only); '
+                        'one parameter of the witness type after 0, 12 or 14 scalar parameters; gen_stmt and println are opaque',
+                        'R13.26: only sources whose table entry has no `implied` kinds are judged (the others are judged at dereferences, R13.1); a parameter counts as stored into a field when the '
+                        'store is unconditional; a callee establishes a field when every normal return has assigned it or excluded the kinds for which it is optional',
                         'R13.22: the printer finds the start of the line at or before the reported position; the nested printer starts from the same line start, so it examines the same bytes in the same order',
                         'facts established in other functions, each confirmed by reading: ' + '; '.join('%s:%s %s (%s)' % (k[0], k[1], k[2], v) for k, v in sorted(ASSUMED.items()))]
     W = _world(P)
@@ -1569,17 +1589,33 @@ def r137(P, rep):
             rep.undecided('R13.7', 'main.c:%s:wait-position' % f, 'wait() is executed conditionally', where=where)
             continue
         rest = body.inner[body.inner.index(top) + 1:]
+        # a wait that delivered a status succeeded: its result is the process id of the reaped child -- for waitpid(pid, ..) with a plain variable, the value of that
+        # variable.  Where the result is kept in a variable (`ret = waitpid(pid, &status, 0)`, possibly retried in a loop), the code after the wait may test it.
+        PID = 4242
+        base_env = {}
+        par = call.parent
+        while par is not None and par.kind in ('ParenExpr', 'ImplicitCastExpr', 'CStyleCastExpr'):
+            par = par.parent
+        if par is not None and par.kind == 'BinaryOperator' and par.opcode == '=' and par.inner[0].strip().kind == 'DeclRefExpr' and par.inner[0].strip().ref_id != sid:
+            base_env[par.inner[0].strip().ref_id] = PID
+        elif par is not None and par.kind == 'VarDecl' and par.id != sid:
+            base_env[par.id] = PID
+        if WAITERS[call.callee()] == 1 and call.args():
+            a0 = call.args()[0].strip_all()
+            if a0.kind == 'DeclRefExpr' and a0.ref_kind in ('VarDecl', 'ParmVarDecl') and a0.ref_id != sid and a0.ref_id not in u.by_id:
+                base_env[a0.ref_id] = PID
+        mkenv = lambda st: dict(base_env, **{sid: st})
         # statuses wait() can deliver without WUNTRACED/WCONTINUED: exited(code) = code<<8, killed(sig[,core]) = sig | 0x80?
         classes = {'exit-code': [c << 8 for c in range(1, 256)],
                    'signal': [sig | core for sig in range(1, 127) for core in (0, 0x80)]}
         try:
-            r0 = _cexec(rest, {sid: 0}, W_noreturn, HARMLESS)
+            r0 = _cexec(rest, mkenv(0), W_noreturn, HARMLESS)
             rep.ob('R13.7', 'main.c:%s:status-0-is-success' % f, r0[0] != 'exit',
                    '%s() exits (code %s) although the child ended with status 0' % (f, r0[1] if r0[0] == 'exit' else ''), where=where)
             for cname, vals in sorted(classes.items()):
                 bad = None
                 for s in vals:
-                    r = _cexec(rest, {sid: s}, W_noreturn, HARMLESS)
+                    r = _cexec(rest, mkenv(s), W_noreturn, HARMLESS)
                     if r[0] != 'exit':
                         bad = (s, 'returns to its caller as if the child had succeeded')
                         break
